@@ -1,18 +1,12 @@
 (* C17 -- group laws of the lattice keypoint maps incl. angle and scale (generated code). *)
 From DV.lib Require Import PyNum PyRt Angle.
 From DV.gen Require Import Gen_keypoints_utils Gen_geom_functional.
-From DV.proofs Require Import Tac C17_box.
+From DV.proofs Require Import Tac KpTac C17_box.
 From Coq Require Import Lqa Lia.
 Open Scope Q_scope.
 
-Lemma norm_eq a : angle_to_2pi_range a = norm a.  Proof. reflexivity. Qed.
-
 Definition angle_ok (k : kp) : Prop := let '(_, _, _, a, _) := k in 0 <= a /\ a < M.
 
-Ltac to_norm :=
-  repeat match goal with
-  | |- context [angle_to_2pi_range ?x] => change (angle_to_2pi_range x) with (norm x)
-  end.
 Ltac mod_flat := to_norm; norm_flat.
 Ltac mod_close_any := norm_close_any.
 Ltac mod_close k := norm_close k.
